@@ -41,6 +41,14 @@ class _Expr(ast.NodeTransformer):
                 return ast.copy_location(ast.Compare(left=o.left, ops=[NEGOP[type(o.ops[0])]()], comparators=o.comparators), n)
         return n
 
+    def visit_Call(self, n):
+        self.generic_visit(n)
+        # 16. getattr(X, '<identifier>') is X.<identifier>
+        if isinstance(n.func, ast.Name) and n.func.id == 'getattr' and len(n.args) == 2 and not n.keywords and isinstance(n.args[1], ast.Constant) \
+                and isinstance(n.args[1].value, str) and n.args[1].value.isidentifier():
+            return ast.copy_location(ast.Attribute(value=n.args[0], attr=n.args[1].value, ctx=ast.Load()), n)
+        return n
+
     def visit_Compare(self, n):
         self.generic_visit(n)
         if len(n.ops) == 1 and type(n.ops[0]) in SWAP:
@@ -151,6 +159,23 @@ def _block(stmts, fn_counts):
     stmts = list(stmts)
     while i < len(stmts):
         s = stmts[i]
+        # 15. a loop over a short display of literals whose body neither breaks nor continues is the body once per literal
+        if isinstance(s, ast.For) and isinstance(s.iter, (ast.Tuple, ast.List)) and 1 <= len(s.iter.elts) <= 4 and isinstance(s.target, ast.Name) \
+                and all(isinstance(e_, ast.Constant) and isinstance(e_.value, (str, int, bytes)) for e_ in s.iter.elts) and not s.orelse \
+                and not any(isinstance(x, (ast.Break, ast.Continue, ast.For, ast.While, ast.AsyncFor, ast.FunctionDef, ast.AsyncFunctionDef, ast.Lambda))
+                            for b_ in s.body for x in ast.walk(b_)) \
+                and not any(isinstance(x, ast.Name) and x.id == s.target.id and isinstance(x.ctx, (ast.Store, ast.Del)) for b_ in s.body for x in ast.walk(b_)):
+            import copy as _copy
+            unrolled = []
+            for e_ in s.iter.elts:
+                for b_ in s.body:
+                    nb = _Subst(s.target.id, e_).visit(_copy.deepcopy(b_))
+                    nb = _Expr().visit(nb)
+                    unrolled.append(nb)
+            for x in unrolled:
+                ast.fix_missing_locations(x)
+            stmts[i:i + 1] = unrolled
+            continue
         # 2. x = x +/- e
         if isinstance(s, ast.Assign) and len(s.targets) == 1 and isinstance(s.targets[0], (ast.Name, ast.Attribute)) and isinstance(s.value, ast.BinOp) \
                 and isinstance(s.value.op, (ast.Add, ast.Sub)) and isinstance(s.value.left, (ast.Name, ast.Attribute)) \
@@ -585,8 +610,121 @@ def _count_loops(tree):
         fn.body = block(fn.body)
 
 
+class _Desugar(ast.NodeTransformer):
+    """two spellings of newer Python read back as the statements they abbreviate (rules 13, 14):
+    13. `match S: case P: B ..` with value / singleton / or / class / capture / wildcard patterns is the if / elif chain of the tests the
+        patterns stand for (`S == V`, `S is None`, `isinstance(S, C) [and S.a == V]`), a capture binds the subject at the head of its arm;
+        sequence / mapping patterns are left alone (the rules then say they cannot read the function);
+    14. an assignment expression evaluated first in an `if` test (`if (x := E) ..:`) is `x = E` followed by the test on x."""
+    n = 0
+
+    def _subject(self, node, pre):
+        e = node.subject
+        if isinstance(e, (ast.Name, ast.Constant)) or (isinstance(e, ast.Attribute) and isinstance(e.value, ast.Name)):
+            return e
+        _Desugar.n += 1
+        nm = f'subject__m{_Desugar.n}'
+        pre.append(ast.copy_location(ast.Assign(targets=[ast.Name(id=nm, ctx=ast.Store())], value=e), node))
+        return ast.Name(id=nm, ctx=ast.Load())
+
+    def _test(self, pat, subj, binds):
+        """test expression for a pattern, or None when the pattern kind is not handled; True for 'always'"""
+        import copy as _copy
+        S = lambda: _copy.deepcopy(subj)
+        if isinstance(pat, ast.MatchValue):
+            return ast.Compare(left=S(), ops=[ast.Eq()], comparators=[pat.value])
+        if isinstance(pat, ast.MatchSingleton):
+            return ast.Compare(left=S(), ops=[ast.Is()], comparators=[ast.Constant(pat.value)])
+        if isinstance(pat, ast.MatchOr):
+            ts = [self._test(p_, subj, binds) for p_ in pat.patterns]
+            if any(t is None for t in ts):
+                return None
+            if any(t is True for t in ts):
+                return True
+            return ast.BoolOp(op=ast.Or(), values=ts)
+        if isinstance(pat, ast.MatchAs):
+            if pat.pattern is None:
+                if pat.name is not None:
+                    binds.append(pat.name)
+                return True
+            t = self._test(pat.pattern, subj, binds)
+            if t is not None and pat.name is not None:
+                binds.append(pat.name)
+            return t
+        if isinstance(pat, ast.MatchClass) and not pat.patterns:
+            t = ast.Call(func=ast.Name(id='isinstance', ctx=ast.Load()), args=[S(), pat.cls], keywords=[])
+            parts = [t]
+            for a_, p_ in zip(pat.kwd_attrs, pat.kwd_patterns):
+                sub = self._test(p_, ast.Attribute(value=S(), attr=a_, ctx=ast.Load()), binds)
+                if sub is None:
+                    return None
+                if sub is not True:
+                    parts.append(sub)
+            return parts[0] if len(parts) == 1 else ast.BoolOp(op=ast.And(), values=parts)
+        return None
+
+    def visit_Match(self, node):
+        self.generic_visit(node)
+        pre = []
+        subj = self._subject(node, pre)
+        arms = []
+        for c in node.cases:
+            binds = []
+            t = self._test(c.pattern, subj, binds)
+            if t is None:
+                return node
+            if c.guard is not None:
+                if binds:
+                    return node         # a guard that reads a capture: not worth it
+                t = c.guard if t is True else ast.BoolOp(op=ast.And(), values=[t, c.guard])
+            import copy as _copy
+            body = [ast.copy_location(ast.Assign(targets=[ast.Name(id=b, ctx=ast.Store())], value=_copy.deepcopy(subj)), c.body[0]) for b in binds] + c.body
+            arms.append((t, body))
+        chain = None
+        for t, body in reversed(arms):
+            if t is True:
+                chain = body
+            else:
+                chain = [ast.copy_location(ast.If(test=t, body=body, orelse=chain or []), body[0])]
+        out = pre + (chain or [ast.copy_location(ast.Pass(), node)])
+        for x in out:
+            ast.fix_missing_locations(x)
+        return out
+
+    @staticmethod
+    def _first_walrus(t):
+        """the NamedExpr that is evaluated first (unconditionally) in test t, with a setter to replace it; or None"""
+        if isinstance(t, ast.NamedExpr):
+            return t
+        if isinstance(t, ast.UnaryOp) and isinstance(t.op, ast.Not):
+            return _Desugar._first_walrus(t.operand)
+        if isinstance(t, ast.Compare):
+            return _Desugar._first_walrus(t.left)
+        if isinstance(t, ast.BoolOp):
+            return _Desugar._first_walrus(t.values[0])
+        if isinstance(t, ast.Call) and t.args and not isinstance(t.func, ast.NamedExpr):
+            return _Desugar._first_walrus(t.args[0]) if isinstance(t.func, ast.Name) else None
+        return None
+
+    def visit_If(self, node):
+        self.generic_visit(node)
+        w = self._first_walrus(node.test)
+        if w is None or not isinstance(w.target, ast.Name):
+            return node
+        asg = ast.copy_location(ast.Assign(targets=[ast.Name(id=w.target.id, ctx=ast.Store())], value=w.value), node)
+
+        class R(ast.NodeTransformer):
+            def visit_NamedExpr(self, n):
+                return ast.copy_location(ast.Name(id=n.target.id, ctx=ast.Load()), n) if n is w else self.generic_visit(n)
+        node.test = R().visit(node.test)
+        ast.fix_missing_locations(asg)
+        return [asg, node]
+
+
 def canonicalise(tree):
     """in-place canonicalisation of a module tree; returns the tree"""
+    _Desugar().visit(tree)
+    ast.fix_missing_locations(tree)
     _count_loops(tree)
     _Expr().visit(tree)
     for fn in [n for n in ast.walk(tree) if isinstance(n, (ast.FunctionDef, ast.AsyncFunctionDef))]:
